@@ -24,6 +24,8 @@ package structs
 //@   at call (*Variables).Set#1 assert varName != "!" && arg1 == p && arg2 == varName && arg3 == varValue && arg4 == dataType
 //@   at call (lang/stdio.Io).Writeln#2 assert arg0 == b && recv == fork.Stdin
 //@   at call (*Fork).Execute#1 assert arg1 == block
+// (C39) an element that arrives after the loop was cancelled (break / continue / return) is not run
+//@   at call (*Fork).Execute#* assert !$hasCancelled(p)
 //@   ensures imp(!called("dynamic") && $metaSet(p, iteration) && len(b) != 0 && !$hasCancelled(p), called("(*Fork).Execute"))
 // ... also for an element whose text is empty (known finding: the real code skips it)
 //@   ensures imp(!called("dynamic") && $metaSet(p, iteration) && len(b) == 0, called("(*Fork).Execute"))
@@ -35,3 +37,60 @@ package structs
 //@   at call forEachInnerLoop#* assert arg0 == p && arg1 == block && arg2 == varName && arg5 == old(iteration) + 1
 //@   at call forEachInnerLoop#* assert imp(steps <= 0, arg3 == old(varValue) && arg4 == old(dataType))
 //@   ensures imp(steps <= 0, called("forEachInnerLoop") && iteration == old(iteration) + 1)
+
+// ---- C39: break / return / continue address exactly the named block -------------------------------------
+// breakUpwards walks from the caller's parent upwards. One iteration: the current process - and nothing
+// else - gets the exit number, its forks are killed with that number and its own Done is called; the walk
+// ends successfully exactly at the first process whose name is the requested one, ends with an error at
+// the scope boundary, and otherwise moves to the parent (never skipping a level).
+//@ func breakUpwards [C39]
+//@   check none
+//@   requires p != nil
+//@   at call dynamic#* modifies nothing
+//@   at call (*Process).KillForks#* modifies all(proc.ExitNum)
+//@   at store ExitNum#* assert arg0 == proc && arg1 == exitNum
+//@   at call (*Process).KillForks#* assert arg0 == proc && arg1 == exitNum
+//@   at call dynamic#* assert callee == proc.Done
+//@   loop 1 step proc == old(proc).Parent && old(proc).Name.name != name && old(proc).Id != old(p.Scope.Id)
+//@   loop 1 step calledsince("(*Process).KillForks") && calledsince("dynamic")
+//@   ensures imp(result == nil, proc.Name.name == name && called("dynamic") && called("(*Process).KillForks"))
+//@   ensures imp(result != nil, proc.Name.name != name && proc.Id == old(p.Scope.Id))
+
+// `break name` / `return n`: the walk starts at the caller with exactly the requested name (resp. the name
+// of the enclosing function scope) and exit number (0 resp. the first parameter, which is also the exit
+// number of `return` itself). A `break` without a name stops its parent only and reports an error.
+//@ func cmdBreak [C39]
+//@   check none
+//@   at call dynamic#* modifies nothing
+//@   at call breakUpwards#* assert arg0 == p && arg1 == ret("(*Parameters).String#1", 0) && arg1 != "" && arg2 == 0
+//@   ensures imp(ret("(*Parameters).String#1", 0) != "", called("breakUpwards") && result == ret("breakUpwards#1"))
+//@   ensures imp(ret("(*Parameters).String#1", 0) == "", !called("breakUpwards") && result != nil)
+//@ func cmdReturn [C39]
+//@   check none
+//@   at store ExitNum#* assert arg0 == p && arg1 == ret("(*Parameters).Int#1", 0)
+//@   at call breakUpwards#* assert arg0 == p && arg1 == p.Scope.Name.name && arg2 == p.ExitNum && arg2 == ret("(*Parameters).Int#1", 0)
+//@   ensures called("breakUpwards") && result == ret("breakUpwards#1")
+
+// `continue name` walks forward (next sibling, then - behind the last sibling - the enclosing block's
+// process). One iteration cancels exactly the current process, which is never the named block itself nor
+// the scope boundary; the walk ends successfully exactly at the first process called `name`, which is
+// NOT cancelled (so its loop goes on with the next iteration).
+//@ func cmdContinue [C39]
+//@   check none
+//@   requires p != nil
+//@   at call dynamic#* modifies nothing
+//@   at call (lang/stdio.Io).Writeln#* modifies nothing
+//@   at call dynamic#* assert callee == proc.Done && proc.Name.name != name && proc.Id != old(p.Scope.Id)
+//@   loop 1 step proc == old(proc).Next && old(proc).Name.name != name && old(proc).Id != old(p.Scope.Id) && calledsince("dynamic")
+//@   ensures imp(result == nil, proc.Name.name == name)
+//@   ensures imp(result != nil, proc.Name.name != name && proc.Id == old(p.Scope.Id))
+//@   ensures imp(ret("(*Parameters).String#1", 0) != "", name == ret("(*Parameters).String#1", 0))
+//@   ensures imp(ret("(*Parameters).String#1", 0) == "", name == old(p.Parent.Name.name))
+
+// The loops re-check cancellation before every iteration: `while` never executes a block (condition or
+// body) in an iteration that started after its process was cancelled / terminated.
+//@ func cmdWhile [C39]
+//@   check none
+//@   at call (*Fork).Execute#1 assert calledsince("(*Process).HasCancelled") && !$hasCancelled(p)
+//@   at call (*Fork).Execute#2 assert calledsince("(*Process).HasTerminated")
+//@   at call (*Fork).Execute#3 assert calledsince("(*Process).HasTerminated")
